@@ -230,7 +230,7 @@ func c19r3(r *R) {
 			count[lbl]++
 			attrs := []string{"in " + funcName(fn)}
 			if ret != nil {
-				k, code := classifyErr(c, retValue(c, ret, len(ret.Results)-1))
+				k, code := classifyErr(c, retValue(ret, len(ret.Results)-1))
 				attrs = append(attrs, "returns "+k+" "+code)
 			} else {
 				attrs = append(attrs, "returns ?")
@@ -249,25 +249,6 @@ func c19r3(r *R) {
 		rows2 = append(rows2, returnRows(c, fn)...)
 	}
 	checkTable(r, "C19.R3", "h2_meta_frame_decisions", rows2, "header-block assembly decision")
-}
-
-// retValue: result k of a return, resolving a named-result cell through the store in the same block.
-func retValue(c *Ctx, ret *ssa.Return, k int) ssa.Value {
-	v := ret.Results[k]
-	if u, ok := v.(*ssa.UnOp); ok {
-		if al, ok := u.X.(*ssa.Alloc); ok {
-			var last ssa.Value
-			for _, i := range ret.Block().Instrs {
-				if st, ok := i.(*ssa.Store); ok && st.Addr == ssa.Value(al) {
-					last = st.Val
-				}
-			}
-			if last != nil {
-				return last
-			}
-		}
-	}
-	return v
 }
 
 func c19r5(r *R) {
